@@ -28,6 +28,12 @@ pub struct Caller {
     pub delay_ms: u64,
     pub item: Item,
     pub del: bool,
+    /// which of the scenario's fresh keyspace names this caller uses (0 = the first)
+    #[serde(default)]
+    pub name_ix: u8,
+    /// the caller gives up (its future is dropped) when it has been left pending this many times
+    #[serde(default)]
+    pub give_up_after_polls: Option<u32>,
 }
 
 #[derive(Serialize, Deserialize, Clone, Debug)]
@@ -46,6 +52,18 @@ pub struct Scenario {
     /// the first purge pass runs into a remove_tombstones failure
     #[serde(default)]
     pub purge_fails: bool,
+    /// after the concurrent callers, one more write per keyspace name, sequentially (a keyspace
+    /// whose first use was abandoned half-way is used again)
+    #[serde(default)]
+    pub late_writes: bool,
+}
+
+fn name_of(base: &str, ix: u8) -> String {
+    if ix == 0 {
+        base.to_string()
+    } else {
+        format!("{base}-{ix}")
+    }
 }
 
 pub struct C18;
@@ -61,7 +79,7 @@ impl Check for C18 {
         "E1 single-node engine: 1-6 caller tasks first-use one keyspace name concurrently through the real write path, ConsistencyService / ReplicationService handlers and the repair path; seeded start offsets, storage latency and a cooperative delay between lookup and insert decide the interleaving"
     }
     fn rule(&self) -> &'static str {
-        "Real-cluster arm (1 case in 127): 2-4 complete nodes built with the public API on slow stores, a node stopped and started again while its peers keep writing; at the final quiescent point every node's served keyspace state must list exactly what its store holds (an operation in the store but not in the served state is an accepted operation applied to another instance). Cases: 1-6 callers with seeded start offsets 0-3 ms, each using a fresh keyspace name for the first time through one of four routes (local write, incoming replicated write, repair Diff+MultiSet, incoming GetState) and issuing one mutation with a unique timestamp; optional storage latency and seeded delays at the lookup/insert gap (hook jitter site group.get_or_create). Oracle at quiescence: the mailbox a later lookup returns serialises a set in which every acknowledged mutation is visible (its id is live/tombstoned at >= its timestamp), set == store (C02 oracle), and a mutation sent through any mailbox handed out earlier is visible through the current one. Non-trivial = >= 2 callers. Distinct = hash of (routes, offsets, jitter, final set)."
+        "Real-cluster arm (1 case in 127): 2-4 complete nodes built with the public API on slow stores, a node stopped and started again while its peers keep writing; at the final quiescent point every node's served keyspace state must list exactly what its store holds (an operation in the store but not in the served state is an accepted operation applied to another instance). Cases: 1-6 callers with seeded start offsets 0-3 ms, each using a fresh keyspace name (a third of the cases: one of two or three different fresh names) for the first time through one of four routes (local write, incoming replicated write, repair Diff+MultiSet, incoming GetState) and issuing one mutation with a unique timestamp; optional storage latency and seeded delays at the lookup/insert gap (hook jitter site group.get_or_create). Oracle at quiescence: the mailbox a later lookup returns serialises a set in which every acknowledged mutation is visible (its id is live/tombstoned at >= its timestamp), set == store (C02 oracle), and a mutation sent through any mailbox handed out earlier is visible through the current one. In a quarter of the cases half of the callers give up (their future is dropped) when they have been left pending 1-9 times, i.e. at any await point of the route, and every name is then written once more; the node's answer to a peer's poll (PollKeyspace) must list every keyspace that holds an acknowledged operation. Non-trivial = >= 2 callers. Distinct = hash of (routes, offsets, jitter, final set)."
     }
     fn assumptions(&self) -> Vec<String> {
         vec!["single OS thread: interleavings are those of await points, chosen by seeded virtual delays; real multi-threaded schedules are not explored".into()]
@@ -113,6 +131,10 @@ impl Check for C18 {
         let n = rng.gen_range(1..=6);
         let ids = rng.gen_range(1..=6u64);
         let mut events = Vec::new();
+        // a third of the cases: the callers first-use two or three DIFFERENT fresh names at once
+        let names = if rng.gen_bool(0.33) { rng.gen_range(2..=3u8) } else { 1 };
+        // a quarter of the cases: some callers give up half-way
+        let quitters = rng.gen_bool(0.25);
         for i in 0..n {
             let route = ["write", "write", "replicated", "repair", "get_state"][rng.gen_range(0..5)];
             events.push(Caller {
@@ -120,6 +142,8 @@ impl Check for C18 {
                 delay_ms: if rng.gen_bool(0.6) { 0 } else { rng.gen_range(0..4) },
                 item: Item { id: rng.gen_range(0..ids), t: base_ms - 40_000 + 4 * (i as u64 * 50 + rng.gen_range(0..50)), c: 0, node: rng.gen_range(1..=3) },
                 del: rng.gen_bool(0.25),
+                name_ix: if names > 1 { rng.gen_range(0..names) } else { 0 },
+                give_up_after_polls: if quitters && rng.gen_bool(0.5) { Some(rng.gen_range(1..=9)) } else { None },
             });
         }
         let jitter_ms = if rng.gen_bool(0.5) { (0..n).map(|_| rng.gen_range(0..5)).collect() } else { vec![] };
@@ -132,6 +156,7 @@ impl Check for C18 {
             precreate: rng.gen_bool(0.1),
             idle_hours: if rng.gen_bool(0.15) { rng.gen_range(1..=2) } else { 0 },
             purge_fails: rng.gen_bool(0.6),
+            late_writes: quitters || rng.gen_bool(0.2),
         })
         .unwrap()
     }
@@ -190,6 +215,7 @@ impl Check for C18 {
         })));
         let st2 = storage.clone();
         let mut sig = Fnv::new();
+        let mut gave_up_total = 0u64;
         let res: Result<(), String> = rt.block_on(async {
             let node = Rc::new(Node::boot(st2).await?);
             let repl = Rc::new(ecv::ReplicationService::new(node.group.clone()));
@@ -199,12 +225,14 @@ impl Check for C18 {
             let local = tokio::task::LocalSet::new();
             // (caller index, acknowledged?, mailbox handed out)
             let results: Rc<RefCell<Vec<(usize, bool, Option<puppet::ActorMailbox<ecv::KeyspaceActor<SimStorage>>>)>>> = Rc::new(RefCell::new(Vec::new()));
+            let gave_up: Rc<RefCell<u64>> = Rc::new(RefCell::new(0));
             for (i, c) in sc.events.iter().enumerate() {
-                let (node, repl, c, name, results) = (node.clone(), repl.clone(), c.clone(), sc.name.clone(), results.clone());
+                let (node, repl, c, name, results, gave_up) = (node.clone(), repl.clone(), c.clone(), name_of(&sc.name, c.name_ix), results.clone(), gave_up.clone());
                 local.spawn_local(async move {
                     if c.delay_ms > 0 {
                         tokio::time::sleep(Duration::from_millis(c.delay_ms)).await;
                     }
+                    let body = async {
                     let doc = Document::new(c.item.id, c.item.ts(), format!("caller{i}").into_bytes());
                     let meta = DocumentMetadata::new(c.item.id, c.item.ts());
                     let msg_ts = node.clock.get_time().await;
@@ -244,7 +272,20 @@ impl Check for C18 {
                             (false, None)
                         },
                     };
-                    results.borrow_mut().push((i, acked, mb));
+                    (acked, mb)
+                    };
+                    let done = match c.give_up_after_polls {
+                        Some(k) => GiveUpAfterPolls::new(body, k).await,
+                        None => Some(body.await),
+                    };
+                    match done {
+                        Some((acked, mb)) => results.borrow_mut().push((i, acked, mb)),
+                        None => {
+                            // the caller gave up: nothing was acknowledged to it
+                            *gave_up.borrow_mut() += 1;
+                            results.borrow_mut().push((i, false, None));
+                        },
+                    }
                 });
             }
             if tokio::time::timeout(Duration::from_secs(7200), local).await.is_err() {
@@ -252,6 +293,20 @@ impl Check for C18 {
             }
             let mut results = results.borrow().clone();
             results.sort_by_key(|r| r.0);
+            gave_up_total = *gave_up.borrow();
+            let names: std::collections::BTreeSet<String> = sc.events.iter().map(|c| name_of(&sc.name, c.name_ix)).chain(std::iter::once(sc.name.clone())).collect();
+            // one more write per name, one after the other, through the local write path
+            let mut late: Vec<(String, u64, datacake_crdt::HLCTimestamp)> = Vec::new();
+            if sc.late_writes {
+                for (k, name) in names.iter().enumerate() {
+                    let ts = node.clock.get_time().await;
+                    let id = 2_000_000 + k as u64;
+                    let mb = node.group.get_or_create_keyspace(name).await;
+                    if mb.send(ecv::Set { source: 0, doc: Document::new(id, ts, b"late".to_vec()), ctx: None, _marker: PhantomData }).await.is_ok() {
+                        late.push((name.clone(), id, ts));
+                    }
+                }
+            }
             // hours go by: the periodic purge pass visits the keyspace, once into a storage failure
             for h in 0..sc.idle_hours {
                 if sc.purge_fails && h == 0 {
@@ -262,18 +317,29 @@ impl Check for C18 {
                 tokio::time::sleep(Duration::from_secs(3_660)).await;
             }
 
-            let mut named = std::collections::BTreeSet::new();
-            named.insert(sc.name.clone());
-            let (live, dead) = node.set_of(&sc.name).await?;
-            let view: BTreeMap<u64, datacake_crdt::HLCTimestamp> = live.iter().chain(dead.iter()).map(|(k, t)| (*k, *t)).collect();
+            let named: std::collections::BTreeSet<String> = names.clone();
             let mut missing = Vec::new();
-            for (i, acked, _) in &results {
-                let c = &sc.events[*i];
-                sig.str(&c.route).u64(c.delay_ms).u64(*acked as u64);
-                if *acked && c.route != "get_state" {
-                    match view.get(&c.item.id) {
-                        Some(t) if *t >= c.item.ts() => {},
-                        other => missing.push(format!("caller {i} ({}) {} id {} at {} -> state has {:?}", c.route, if c.del { "delete" } else { "put" }, c.item.id, fmt_ts(c.item.ts()), other.map(|t| fmt_ts(*t)))),
+            let mut with_accepted: std::collections::BTreeSet<String> = late.iter().map(|l| l.0.clone()).collect();
+            for name in &names {
+                let (live, dead) = node.set_of(name).await?;
+                let view: BTreeMap<u64, datacake_crdt::HLCTimestamp> = live.iter().chain(dead.iter()).map(|(k, t)| (*k, *t)).collect();
+                for (i, acked, _) in &results {
+                    let c = &sc.events[*i];
+                    if name_of(&sc.name, c.name_ix) != *name {
+                        continue;
+                    }
+                    sig.str(&c.route).u64(c.delay_ms).u64(*acked as u64).u64(c.name_ix as u64).u64(c.give_up_after_polls.unwrap_or(0) as u64);
+                    if *acked && c.route != "get_state" {
+                        with_accepted.insert(name.clone());
+                        match view.get(&c.item.id) {
+                            Some(t) if *t >= c.item.ts() => {},
+                            other => missing.push(format!("caller {i} ({}) {} id {} at {} in '{name}' -> state has {:?}", c.route, if c.del { "delete" } else { "put" }, c.item.id, fmt_ts(c.item.ts()), other.map(|t| fmt_ts(*t)))),
+                        }
+                    }
+                }
+                for (n, id, ts) in &late {
+                    if n == name && !matches!(view.get(id), Some(t) if t >= ts) {
+                        missing.push(format!("late write id {id} at {} in '{name}' -> state has {:?}", fmt_ts(*ts), view.get(id).map(|t| fmt_ts(*t))));
                     }
                 }
             }
@@ -283,13 +349,32 @@ impl Check for C18 {
                     format!("{} acknowledged operation(s) are not in the set peers synchronise against: {}", missing.len(), missing.join("; ")),
                 );
             }
+            // what peers are told when they poll: a keyspace that holds accepted operations must be
+            // advertised, or nobody ever synchronises against it
+            {
+                let ts = node.clock.get_time().await;
+                let req = Request::using_owned(ecv::PollKeyspace(ts)).await;
+                match Handler::<ecv::PollKeyspace>::on_message(repl.as_ref(), req).await {
+                    Ok(info) => {
+                        let hidden: Vec<&String> = with_accepted.iter().filter(|n| !info.keyspace_timestamps.contains_key(n.as_str())).collect();
+                        if !hidden.is_empty() {
+                            out.violate(
+                                "C18/keyspace-with-accepted-operations-not-advertised-to-peers",
+                                format!("keyspace(s) {:?} hold acknowledged operations but the node's answer to a peer's poll lists only {:?}", hidden, info.keyspace_timestamps.keys().collect::<Vec<_>>()),
+                            );
+                        }
+                    },
+                    Err(e) => return Err(format!("harness: poll failed: {}", e.message)),
+                }
+            }
             let fp = check_agreement(&node, &named, "after concurrent first use", "C18/set-store", &mut out).await;
             out.state_fp = fp;
             // one state for the life of the node: every mailbox handed out reaches the same set
-            let current = node.group.get_or_create_keyspace(&sc.name).await;
             let mut probe_id = 1_000_000u64;
             for (i, _, mb) in &results {
                 if let Some(mb) = mb {
+                    let name = name_of(&sc.name, sc.events[*i].name_ix);
+                    let current = node.group.get_or_create_keyspace(&name).await;
                     probe_id += 1;
                     let ts = node.clock.get_time().await;
                     let d = Document::new(probe_id, ts, b"probe".to_vec());
@@ -299,7 +384,7 @@ impl Check for C18 {
                     if ok && set.get(&probe_id).is_none() {
                         out.violate(
                             "C18/second-keyspace-instance",
-                            format!("a write acknowledged through the mailbox handed to caller {i} is invisible through the mailbox a later lookup returns: two instances of keyspace '{}' exist", sc.name),
+                            format!("a write acknowledged through the mailbox handed to caller {i} is invisible through the mailbox a later lookup returns: two instances of keyspace '{}' exist", name),
                         );
                     }
                 }
@@ -317,6 +402,10 @@ impl Check for C18 {
             out.fault("storage_latency");
         }
         out.fault_n("concurrent_first_use", (sc.events.len() > 1 && !sc.precreate) as u64);
+        out.fault_n("caller_gave_up_half_way", gave_up_total);
+        if sc.events.iter().any(|c| c.name_ix > 0) {
+            out.fault("different_fresh_names_at_once");
+        }
         out.nontrivial = sc.events.len() >= 2;
         sig.u64(out.state_fp).u64(storage.trace_hash());
         for j in &sc.jitter_ms {
